@@ -332,6 +332,12 @@ EQUIVALENTS = [
     ("group-merge-by-unpacking", ("C13", "C12"), [(MF,
       "            track = sequences_to_merge[0]\n            track.merge(sequences_to_merge[1:])",
       "            track, *others = sequences_to_merge\n            track.merge(others)")]),
+    ("group-membership-hoisted", ("C13", "C12"), [(MF,
+      "            # Skip tracks not specified\n            if not any(i in indices for indices in track_indices) and i not in meta_track_indices:",
+      "            in_group = any(i in indices for indices in track_indices)\n            # Skip tracks not specified\n            if not in_group and i not in meta_track_indices:"),
+      (MF, "            if any(i in indices for indices in track_indices):\n                group_indices", "            if in_group:\n                group_indices"),
+      (MF, "if msg.message_type == MessageType.NOTE_ON and any(i in indices for indices in track_indices):", "if msg.message_type == MessageType.NOTE_ON and in_group:"),
+      (MF, "elif msg.message_type == MessageType.NOTE_OFF and any(i in indices for indices in track_indices):", "elif msg.message_type == MessageType.NOTE_OFF and in_group:")]),
     ("transpose-shift-helper", ("C14",), [(REL,
       "                msg.note += transpose_by\n                while msg.note < NOTE_LOWER_BOUND:\n                    had_to_shift = True\n                    msg.note += 12\n                while msg.note > NOTE_UPPER_BOUND:\n                    had_to_shift = True\n                    msg.note -= 12\n",
       "                if RelativeSequence._shift_note(msg, transpose_by):\n                    had_to_shift = True\n"),
@@ -407,20 +413,25 @@ class _PassHead(ast.NodeTransformer):
 class _Hoist(ast.NodeTransformer):
     """`if a <op> EXPR:` -> `_h1 = EXPR` followed by `if a <op> _h1:` for non-trivial EXPR of plain (non-elif) if statements."""
 
-    def __init__(self):
+    def __init__(self, left: bool = False):
         self.n = 0
+        self.left = left            # hoist the left operand instead of the right one
 
     def _hoist_block(self, body):
         out = []
         for s in body:
             s = self.visit(s)
             if isinstance(s, ast.If) and isinstance(s.test, ast.Compare) and len(s.test.ops) == 1 \
-                    and isinstance(s.test.comparators[0], (ast.BinOp, ast.Call, ast.Subscript)) \
+                    and isinstance(s.test.left if self.left else s.test.comparators[0], (ast.BinOp, ast.Call, ast.Subscript)) \
                     and not any(isinstance(x, (ast.Yield, ast.Await, ast.NamedExpr)) for x in ast.walk(s.test)):
                 self.n += 1
                 name = f"_h{self.n}"
-                out.append(ast.copy_location(ast.Assign(targets=[ast.Name(id=name, ctx=ast.Store())], value=s.test.comparators[0]), s))
-                s.test.comparators[0] = ast.Name(id=name, ctx=ast.Load())
+                if self.left:
+                    out.append(ast.copy_location(ast.Assign(targets=[ast.Name(id=name, ctx=ast.Store())], value=s.test.left), s))
+                    s.test.left = ast.Name(id=name, ctx=ast.Load())
+                else:
+                    out.append(ast.copy_location(ast.Assign(targets=[ast.Name(id=name, ctx=ast.Store())], value=s.test.comparators[0]), s))
+                    s.test.comparators[0] = ast.Name(id=name, ctx=ast.Load())
             out.append(s)
         return out
 
@@ -771,8 +782,8 @@ def rewrite_function(program: Program, qualname: str, kind: str) -> Program | No
         _AugToAssign().visit(target)
     elif kind == "pass":
         _PassHead().visit(target)
-    elif kind == "hoist":
-        h = _Hoist()
+    elif kind in ("hoist", "hoistleft"):
+        h = _Hoist(left=(kind == "hoistleft"))
         h.generic_visit(target)
         if h.n == 0:
             return None
@@ -1066,7 +1077,7 @@ def run(ctx: Ctx) -> None:
     targets += sorted(q for q in ctx.analysed_functions if q not in targets and q in ctx.p.functions)     # everything the check looked at
     jobs.append(("rewrite", prop, "<whole tree>", "reformat"))
     for q in targets:
-        for kind in ("rename", "aug", "pass", "hoist", "flip", "demorgan", "swapcmp", "swapstmt", "temp", "unroll", "inline", "truthy", "isenum", "ternary", "lenshift"):
+        for kind in ("rename", "aug", "pass", "hoist", "flip", "demorgan", "swapcmp", "swapstmt", "temp", "unroll", "inline", "truthy", "isenum", "ternary", "lenshift", "hoistleft"):
             jobs.append(("rewrite", prop, q, kind))
     for eid, props, reps in EQUIVALENTS:
         if prop in props:
